@@ -1,70 +1,49 @@
 /-
-  C06 — exactly one highest-salience satisfied rule fires per cycle.
-  Decision logic of the salience scan (`pickRunner`, engine/GruleEngine.go) stated outright, for all
-  integer saliences and every iteration order; trace-level statements are in `Proofs/Trace.lean`
-  and re-exported here.
+  C06 — every run terminates within the cycle budget and reports itself faithfully.
+  Termination: `runLoop` / `specLoop` are structurally recursive on the fuel `maxCycle + 1`; Lean's
+  termination checker is the proof that the loop returns whenever every condition and action does.
 -/
-import GruleModel.Engine
+import GruleModel.Proofs.Side
 namespace Grule.C06
+open Grule
 
-/-- the runner is one of the candidates -/
-theorem C06_runner_is_candidate (r : RuleEntry) (rs : List RuleEntry) : pickRunner r rs ∈ r :: rs := by
-  induction rs generalizing r with
-  | nil => simp [pickRunner]
-  | cons p rest ih =>
-    unfold pickRunner
-    split
-    · have := ih p
-      simp only [List.mem_cons] at this ⊢
-      rcases this with h | h
-      · right; left; exact h
-      · right; right; exact h
-    · have := ih r
-      simp only [List.mem_cons] at this ⊢
-      rcases this with h | h
-      · left; exact h
-      · right; right; exact h
+/-- the `exec` events of the listener trace -/
+abbrev firings (tr : List TEv) : List (Nat × String) := execList tr
 
-/-- auxiliary: the scan never lowers the salience it holds -/
-theorem pickRunner_ge_start (r : RuleEntry) (rs : List RuleEntry) :
-    r.rule.salience ≤ (pickRunner r rs).rule.salience := by
-  induction rs generalizing r with
-  | nil => simp [pickRunner]
-  | cons p rest ih =>
-    unfold pickRunner
-    split
-    · rename_i h; exact Int.le_trans (Int.le_of_lt h) (ih p)
-    · exact ih r
+/-- **At most MaxCycle firings; the cycle-limit error exactly after MaxCycle firings** (engine with working
+    memory, under `Side`; every MaxCycle ≥ 0, rule set, fact state, order, cancellation point). -/
+theorem C06_fires_le_max {c : Cfg} (rc : RunCfg) (inst : Instance) (st : Store) (h : Side c inst.entries) :
+    (firings (execute rc c inst st).trace).length ≤ rc.maxCycle ∧
+    ((execute rc c inst st).outcome = .cycleLimit → (firings (execute rc c inst st).trace).length = rc.maxCycle) := by
+  obtain ⟨ho, htr, _⟩ := execute_refines h.pure h.inj rc inst st h.wf h.frame
+  rw [ho, htr]
+  have hx := refRun_exec rc c inst st
+  unfold refRun at hx
+  unfold firings
+  rw [hx]
+  unfold specExecute firedNames
+  dsimp only
+  have := specLoop_count (c := c) rc inst.entries (rc.maxCycle + 1) 0 { vis := { st := st } } rfl (Nat.zero_le _)
+  generalize specLoop rc c inst.entries (rc.maxCycle + 1) 0 { vis := { st := st } } = sl at this
+  obtain ⟨o, ss⟩ := sl
+  simp only [List.length_map, List.length_reverse] at this ⊢
+  exact this
 
-/-- the runner's salience is maximal among all candidates of the cycle (any `Int`, hence the whole
-    int32 range, negative and equal values included) -/
-theorem C06_max_salience (r : RuleEntry) (rs : List RuleEntry) :
-    ∀ p ∈ r :: rs, p.rule.salience ≤ (pickRunner r rs).rule.salience := by
-  induction rs generalizing r with
-  | nil => intro p hp; simp at hp; subst hp; simp [pickRunner]
-  | cons q rest ih =>
-    intro p hp
-    unfold pickRunner
-    split
-    · rename_i h
-      simp only [List.mem_cons] at hp
-      rcases hp with hp | hp | hp
-      · subst hp; exact Int.le_trans (Int.le_of_lt h) (pickRunner_ge_start q rest)
-      · subst hp; exact pickRunner_ge_start p rest
-      · exact ih q p (by simp [hp])
-    · rename_i h
-      simp only [List.mem_cons] at hp
-      rcases hp with hp | hp | hp
-      · subst hp; exact pickRunner_ge_start p rest
-      · subst hp; exact Int.le_trans (Int.not_lt.mp h) (pickRunner_ge_start r rest)
-      · exact ih r p (by simp [hp])
+/-- the candidate status the listeners hear is the real one: the `eval` events of a pass carry exactly
+    `Satisfied` (see `C02_pass_complete`), and the engine's events are the reference loop's
+    (`execute_refines`). Restated here for the trace as a whole. -/
+theorem C06_trace_is_reference_trace {c : Cfg} (rc : RunCfg) (inst : Instance) (st : Store) (h : Side c inst.entries) :
+    (execute rc c inst st).trace = (refRun rc c inst st).trace ∧
+    (execute rc c inst st).outcome = (refRun rc c inst st).outcome :=
+  let r := execute_refines h.pure h.inj rc inst st h.wf h.frame
+  ⟨r.2.1, r.1⟩
 
-/-- non-vacuity: three candidates with saliences 0, 5, 5 — the first maximal one (B) runs -/
-example :
-    let mk := fun (n : String) (s : Int) => ({ key := n, rule := { name := n, desc := "", salience := s, cond := default, acts := [] } } : RuleEntry)
-    (pickRunner (mk "A" 0) [mk "B" 5, mk "C" 5]).key = "B" := by decide
+/-- the model of `notify*` hands the same arguments to every registered listener in turn: the run has one
+    trace, whatever the number of listeners (0 included) — by construction of `LoopState.emit`. -/
+theorem C06_one_trace (ls : LoopState) (e : TEv) : (ls.emit e).trace = e :: ls.trace := rfl
 
 end Grule.C06
 
-#print axioms Grule.C06.C06_runner_is_candidate
-#print axioms Grule.C06.C06_max_salience
+#print axioms Grule.C06.C06_fires_le_max
+#print axioms Grule.C06.C06_trace_is_reference_trace
+#print axioms Grule.C06.C06_one_trace
